@@ -1490,11 +1490,13 @@ def run(tier):
     if not okx or not okd:
         res.notes.append("extraction build failed: " + (xlog if not okx else dlog)[-600:])
     seen = set()
+    per_kind = collections.Counter()
     for key, detail, what in bad:
         kk = (key.get("kind"), key.get("field"))
-        if kk in seen or len(seen) >= 12:
+        if kk in seen or per_kind[key.get("kind")] >= 6:
             continue
         seen.add(kk)
+        per_kind[key.get("kind")] += 1
         res.violation(key, detail, "C06: " + what)
     if not bad:
         if not b["ok"]:
